@@ -87,7 +87,7 @@ def run(key, checks):
             print("build failed", b.stdout[-500:]); return 1
         for c in checks:
             t0 = time.time()
-            r = sh(f"cd {ROOT} && VERIF_EVIDENCE_DIR=/verif/target/scratch-evidence VERIF_SEED=${{VERIF_SEED:-3}} ./target/release/vrun check {c} quick", timeout=3600)
+            r = sh(f"cd {ROOT} && VERIF_NO_REPLAY=1 VERIF_EVIDENCE_DIR=/verif/target/scratch-evidence VERIF_SEED=${{VERIF_SEED:-3}} ./target/release/vrun check {c} quick", timeout=3600)
             m = re.search(r"VIOLATION property=(\S+) replay=(\S+)", r.stdout)
             sig = None
             ms = re.search(r"^--- (?:violation detail \([^/]*/ |regression case fails again \()?(.*?)\)?:?$", r.stdout, re.M)
@@ -123,8 +123,23 @@ def table():
     open(os.path.join(ROOT, "seeded", "README.md"), "w").write(out)
     print(out)
 
+def run_all():
+    """Re-run every stored change against the check of its own property (generated search only)."""
+    keys = sorted(os.path.relpath(os.path.dirname(m), os.path.join(ROOT, "seeded")) for m in glob.glob(os.path.join(ROOT, "seeded", "*", "*", "meta.json")))
+    missed = []
+    for k in keys:
+        meta = json.load(open(os.path.join(ROOT, "seeded", k, "meta.json")))
+        target = meta.get("target_check", meta["property"])
+        run(k, [target])
+        meta = json.load(open(os.path.join(ROOT, "seeded", k, "meta.json")))
+        if meta["checks"].get(target, {}).get("verdict") != "VIOLATION":
+            missed.append(k)
+    print("MISSED:", missed)
+    return 1 if missed else 0
+
 if __name__ == "__main__":
     cmd = sys.argv[1]
+    if cmd == "run-all": sys.exit(run_all())
     if cmd == "confirm": sys.exit(confirm(*sys.argv[2:6]))
     if cmd == "run": sys.exit(run(sys.argv[2], sys.argv[3:]))
     if cmd == "table": table()
